@@ -10,6 +10,7 @@
 -/
 import Shm.Lemmas.ModesLemmas
 import Shm.Crypto.More
+import Shm.Lemmas.DesLemmas
 namespace Shm.C10
 open Shm.Crypto
 
@@ -97,5 +98,11 @@ theorem C10_gcm_roundtrip {E : Bytes → Bytes} (hE : ∀ b, b.length = 16 → (
 /-- PKCS#7 padding: unpad undoes pad; the padded length is a multiple of the block size -/
 theorem C10_pkcs7 (bs : Nat) (m : Bytes) (h0 : 0 < bs) (h1 : bs < 256) :
     pkcs7Unpad bs (pkcs7Pad bs m) = some m ∧ (pkcs7Pad bs m).length % bs = 0 := ⟨pkcs7_roundtrip bs m h0 h1, pkcs7Pad_length bs m h0⟩
+
+/-- **DES / triple DES: decryption is the same rounds with the key schedule reversed** - the sixteen Feistel rounds followed by the exchange of the halves are undone
+    by the same procedure under the reversed schedule, for EVERY round function and EVERY key schedule (so in particular for `fFun` and `subkeys`; that the
+    tables are the FIPS 46-3 ones is validated by execution: the FIPS example vector and every 3DES operation of K10 / K20) -/
+theorem C10_feistel_inverse {K : Type} (f : K → UInt32 → UInt32) (ks : List K) (x : UInt32 × UInt32) :
+    Shm.Crypto.DES.core f ks.reverse (Shm.Crypto.DES.core f ks x) = x := Shm.Crypto.DES.core_inverse f ks x
 
 end Shm.C10
